@@ -16,6 +16,9 @@ def run(ctx):
     from . import C20 as RC20
     RC20.buffer_rules(ctx, "R20.c", None, None)
     RH.dividers_writers(ctx, "R09.h")
+    # spans are computed on the normalised text and drawn on the original: both keep the same length through lower-casing
+    RK.lower_rules(ctx, "R09.i")
+    RK.normalize_assigns_together(ctx, "R09.i")
     return info("R09.a: abstract walk of every loop-iteration / exit path of the title builder: markers are emitted as left, exactly "
                 "one source slice, right, every path ends closed; R09.b: spans are word.slice.0 + subslice.{0,1}, the match is "
                 "looked up by word offset, every WordMatch is built with subslice.0 = 0; R09.c: empty query passes, no match => "
